@@ -954,7 +954,7 @@ func (h *H) randomSteps(n int, crashProb int) {
 		id := ids[h.r.Intn(len(ids))]
 		budget := -1
 		if crashProb > 0 && h.r.Intn(100) < crashProb {
-			budget = h.r.Intn(3)
+			budget = 1 + h.r.Intn(4)/3
 		}
 		h.reconcile(id, budget)
 	}
@@ -1049,7 +1049,7 @@ func runHistory(seed int64, n int, out *bufio.Writer, kind string) {
 	h.lastState = h.dump()
 	crashProb := 0
 	if kind == "crash" {
-		crashProb = 35
+		crashProb = 50
 	}
 	// initially connect a random subset of the targets
 	for _, t := range h.targets {
@@ -1127,6 +1127,8 @@ func main() {
 	n := flag.Int("n", 20, "histories")
 	ncrash := flag.Int("crash", 10, "histories with crash injection")
 	one := flag.Int("one", -1, "run only this history number")
+	shard := flag.Int("shard", 0, "this process runs the histories with number % shards == shard")
+	shards := flag.Int("shards", 1, "")
 	flag.Parse()
 	env.Quiet()
 	os.Setenv("ADMINGROUPS", "")
@@ -1141,9 +1143,13 @@ func main() {
 		return
 	}
 	for i := 0; i < *n; i++ {
-		runHistory(*seed, i, out, "atomic")
+		if i%*shards == *shard {
+			runHistory(*seed, i, out, "atomic")
+		}
 	}
 	for i := 0; i < *ncrash; i++ {
-		runHistory(*seed, 100000+i, out, "crash")
+		if i%*shards == *shard {
+			runHistory(*seed, 100000+i, out, "crash")
+		}
 	}
 }
